@@ -99,6 +99,9 @@ type File struct {
 	Text *string   `json:"text,omitempty"`
 	Link string    `json:"link,omitempty"` // symbolic link to root/<Link> (dangling when that does not exist)
 	Dir  bool      `json:"dir,omitempty"`
+	// Via: how a regular file reaches its name: "" written in place | "rename" written under a
+	// staging name outside the wallet directory and then moved into place (atomic publish)
+	Via string `json:"via,omitempty"`
 }
 
 type TxSpec struct {
@@ -425,6 +428,7 @@ type model struct {
 	// then holds a file for them (how the listener-discovered files enter the availability clause)
 	observed map[string]bool
 	v3mem    map[string][]byte
+	staged   int
 }
 
 func newModel(c *Case, root string) *model {
@@ -572,6 +576,14 @@ func (m *model) write(f File, disk bool) error {
 	case f.Link != "":
 		return os.Symlink(m.abs(f.Link), m.abs(p))
 	default:
+		if f.Via == "rename" {
+			m.staged++
+			tmp := filepath.Join(m.root, fmt.Sprintf("staged-%d", m.staged))
+			if err := os.WriteFile(tmp, m.render(&ff), 0o644); err != nil {
+				return err
+			}
+			return os.Rename(tmp, m.abs(p))
+		}
 		return os.WriteFile(m.abs(p), m.render(&ff), 0o644)
 	}
 }
@@ -1217,9 +1229,31 @@ func (r *run) act(ctx context.Context, i int, a Action) (vs []evid.Violation, fa
 				tx = &TxSpec{ChainID: 1}
 			}
 			var out []byte
-			out, reqErr = w.Sign(ctx, tx.build(fromJSON(a.Addr, a.From)), tx.ChainID)
+			// caller-owned memory: from and data are handed over as sub-slices of one buffer with
+			// spare capacity behind them; the call must leave the whole buffer as it was
+			req := tx.build(fromJSON(a.Addr, a.From))
+			arena := make([]byte, 0, len(req.From)+len(req.Data)+64)
+			arena = append(append(arena, req.From...), req.Data...)
+			nf, nd := len(req.From), len(req.Data)
+			arena = arena[:cap(arena)]
+			for k := nf + nd; k < len(arena); k++ {
+				arena[k] = 0xa5
+			}
+			req.From, req.Data = json.RawMessage(arena[:nf:nf]), arena[nf:nf+nd]
+			before := append([]byte(nil), arena...)
+			out, reqErr = w.Sign(ctx, req, tx.ChainID)
+			if string(before) != string(arena) {
+				vs = append(vs, evid.V("caller-memory", "action %d: Sign wrote into the caller's from/data buffer (or behind it): %x -> %x", i, before, arena))
+			}
 			if reqErr == nil {
 				signer, oracleErr = recoverTx(out, tx.ChainID)
+				// the result belongs to the caller: scribbling over it must not disturb any later result
+				for k := range out {
+					out[k] = 0xff
+				}
+			}
+			for k := range arena {
+				arena[k] = 0x5a // ... and neither must re-using the request buffer
 			}
 		case "typed":
 			var res *ethsigner.EIP712Result
@@ -1235,6 +1269,12 @@ func (r *run) act(ctx context.Context, i int, a Action) (vs []evid.Violation, fa
 						oracleErr = fmt.Errorf("compact signature of %d bytes", len(res.SignatureRSV))
 					} else if s2, e2 := recoverRSV(res.Hash, res.SignatureRSV[0:32], res.SignatureRSV[32:64], int64(res.SignatureRSV[64])); e2 != nil || s2 != signer {
 						oracleErr = fmt.Errorf("compact signature recovers to %q (%v), V/R/S fields to %s", s2, e2, signer)
+					}
+				}
+				// the result belongs to the caller: scribbling over it must not disturb any later result
+				for _, b := range [][]byte{res.Hash, res.SignatureRSV, res.R, res.S} {
+					for k := range b {
+						b[k] = 0xff
 					}
 				}
 			}
@@ -1281,7 +1321,6 @@ func (r *run) act(ctx context.Context, i int, a Action) (vs []evid.Violation, fa
 	}
 	return vs, false
 }
-
 
 // accountBoundsIfScanned is what the list would have to contain if every present file had
 // been noticed (used only to decide when "settle" may stop waiting).
@@ -1396,6 +1435,9 @@ func analyze(c Case, nearMissNames map[string]bool) (classes []string, nontrivia
 		case "write":
 			_ = m.write(*a.File, false)
 			set["act:write"] = true
+			if a.File.Via == "rename" {
+				set["act:write(file moved into place by rename)"] = true
+			}
 		case "accounts":
 			set["act:accounts"] = true
 			if nearMissVisible(m) {
